@@ -77,6 +77,8 @@ class Exec(ExprMixin, AccessMixin, CallMixin, StmtMixin, SpecMixin, HeapMixin, O
     return {k: v for k, v in env.items()}
 
   def apply_contract(self, st, con, finfo, args, kwargs, ctor_cls=None):
+    if con.coroutine_:
+      return self.make_coroutine(st, con, finfo, args, kwargs)
     self.ctx.use_trusted('contract:%s' % con.name) if not con.verify else None
     env = self.contract_env(st, con, finfo, args, kwargs)
     site = '%s->%s' % (self.cur_func.qualname if self.cur_func else '?', con.name)
@@ -116,6 +118,7 @@ class Exec(ExprMixin, AccessMixin, CallMixin, StmtMixin, SpecMixin, HeapMixin, O
           self.havoc_heap(s, ['*'])
         else:
           self.havoc_heap(s, [m for m in con.modifies_ if not self.mentions_unset_ghost(s, m)], None)
+        self.havoc_callee_ghosts(s, con)
         saved_old = self.old_state
         self.old_state = old
         self._calls = getattr(self, '_calls', 0) + 1
@@ -261,9 +264,10 @@ class Exec(ExprMixin, AccessMixin, CallMixin, StmtMixin, SpecMixin, HeapMixin, O
     for pname, pv in args_env.items():
       self.observe_object(st, pname, pv)
     for g, kind in con.ghost_.items():
-      if kind == 'seq':
+      if kind in ('seq', 'seq[str]', 'seq[int]'):
         from pyvc.values import VSeq
-        st.ghost[g] = VSeq(z3.Const('ghost_' + g, z3.ArraySort(z3.IntSort(), Val)))
+        rng = {'seq': Val, 'seq[str]': z3.StringSort(), 'seq[int]': z3.IntSort()}[kind]
+        st.ghost[g] = VSeq(z3.Const('ghost_' + g, z3.ArraySort(z3.IntSort(), rng)))
         continue
       st.ghost[g] = self.make_input(st, 'ghost_' + g, kind)
     env = {'$module': finfo.module, '$closure': pre_made.get('$closure'), '$func': finfo}
@@ -281,6 +285,13 @@ class Exec(ExprMixin, AccessMixin, CallMixin, StmtMixin, SpecMixin, HeapMixin, O
     lets = {}
     for lname, lexpr in con.lets_:
       lets[lname] = self.eval_spec_value(st, lexpr)
+    for label, oexpr in con.observe_:
+      try:
+        ov = self.eval_spec_value(st.fork(), oexpr)
+        if hasattr(ov, 't') and not isinstance(ov.t, (int, str)):
+          ctx.observe.append((label, ov.t))
+      except Unsupported:
+        pass
     old = st.fork()
     self.old_state = old
     body_state = st.fork()
@@ -310,6 +321,9 @@ class Exec(ExprMixin, AccessMixin, CallMixin, StmtMixin, SpecMixin, HeapMixin, O
       s.env.update(lets)
       if isinstance(r, Raised):
         self.check_exceptional_exit(s, con, r.exc)
+      elif con.coroutine_:
+        ctx.obligations.append(Obligation('%s/co.the_generator_never_finishes' % ctx.unit, 'post', list(s.pc), z3.BoolVal(False), '',
+                                          {'msg': 'the generator body returns: the next send() raises StopIteration in the caller'}))
       else:
         extra = {'result': r}
         for ename, eexpr in con.ensures_:
@@ -317,14 +331,143 @@ class Exec(ExprMixin, AccessMixin, CallMixin, StmtMixin, SpecMixin, HeapMixin, O
         hook = con.hooks.get('at_exit')
         if hook:
           hook(self, s, r)
+      for g in sorted(con.ghost_const):
+        a, b = old.ghost.get(g), s.ghost.get(g)
+        if a is not None and b is not None and hasattr(a, 't') and not a.t.eq(b.t):
+          ctx.obligations.append(Obligation('%s/ghost.%s_is_left_unchanged' % (ctx.unit, g), 'frame', list(s.pc), a.t == b.t, '', {}))
+      if tuple(s.locks) != tuple(old.locks):
+        ctx.obligations.append(Obligation('%s/lock.every_acquired_lock_is_released_at_exit' % ctx.unit, 'lock', list(s.pc), z3.BoolVal(False), '',
+                                          {'msg': 'locks held at exit: %s (at entry: %s)' % (list(s.locks), list(old.locks))}))
       self.check_frame(old, s, con)
     ctx.paths += paths
-    if paths == 0:
+    if paths == 0 and not (con.coroutine_ and getattr(ctx, 'co_cuts', 0) > 0):
       ctx.obligations.append(Obligation('%s/cover.paths' % ctx.unit, 'cover', [], z3.BoolVal(False), '',
                                         {'msg': 'no feasible path through the function'}))
     return {'paths': paths}
 
   _GHOST_RE = __import__('re').compile(r"ghost\('([^']+)'\)")
+
+  # ------------------------------------------------------------------ coroutines (generators driven by next / send)
+  def co_suspend(self, s):
+    """The generator under verification is about to execute a statement `x (op)= yield`: a suspension point, where
+    the path is cut.  Returns False when the path ends here (second suspension)."""
+    con = self.unit_contract
+    spec = con.coroutine_
+    unit = self.ctx.unit
+    resumed = s.ghost.get('$co_resume')
+    saved_old = self.old_state
+    try:
+      if resumed is None:
+        for n, ex_ in spec['init']:
+          self.spec_obligation(s, ex_, '%s/co.init.%s' % (unit, n), 'post')
+      else:
+        snap, sent = resumed
+        self.old_state = snap
+        for n, ex_ in spec['step']:
+          self.spec_obligation(s, ex_, '%s/co.step.%s' % (unit, n), 'post', {'sent': sent})
+      for n, ex_ in spec['inv']:
+        self.spec_obligation(s, ex_, '%s/co.inv.%s' % (unit, n), 'post')
+    finally:
+      self.old_state = saved_old
+    self.ctx.paths += 1
+    self.ctx.co_cuts = getattr(self.ctx, 'co_cuts', 0) + 1
+    if resumed is not None:
+      return False                     # second suspension on this path: cut
+    # resume from an arbitrary suspended state satisfying the invariant, with an arbitrary sent value
+    for name, kind in spec['state'].items():
+      s.env[name] = self.make_result(s, kind)
+    if con.modifies_ is None:
+      self.havoc_heap(s, ['*'])
+    elif con.modifies_:
+      self.havoc_heap(s, list(con.modifies_), None)
+    for g in con.ghost_:
+      if g in con.ghost_const or g not in s.ghost:
+        continue
+      if isinstance(s.ghost[g], (VInt, VStr)) or type(s.ghost[g]).__name__ == 'VSeq':
+        s.ghost[g] = type(s.ghost[g])(fresh('co_' + g, s.ghost[g].t.sort()))
+    for n, ex_ in spec['inv']:
+      s.assume(self.eval_spec_merged(s, ex_))
+    sent = self.make_result(s, spec['send'])
+    s.ghost['$co_resume'] = (s.fork(), sent)
+    s.ghost['$co_sent'] = sent
+    return True
+
+  def co_yield(self, st, e):
+    """The yield expression itself (the statement prelude co_suspend already cut the path): its value is what was sent."""
+    con = self.unit_contract
+    if con is None or not con.coroutine_ or self.call_stack[1:] or self.spec_mode or '$co_sent' not in st.ghost:
+      raise Unsupported('yield expression outside a coroutine under contract')
+    return [(st, st.ghost.pop('$co_sent'))]
+
+  def co_fields_env(self, st, obj, con, env):
+    e = dict(env)
+    for name in con.coroutine_['state']:
+      e[name] = self.read_field(st, obj, name)
+    return e
+
+  def make_coroutine(self, st, con, finfo, args, kwargs):
+    env = self.contract_env(st, con, finfo, args, kwargs)
+    obj = self.alloc(st, 'gen:' + con.name)
+    st.pyheap[(self.oid_of(obj), '$co')] = (con, env, False)
+    return [(st, obj)]
+
+  def co_resume(self, st, obj, sent):
+    """next(gen) (sent is None) or gen.send(sent) on a generator object created from a coroutine contract."""
+    oid = self.oid_of(obj)
+    rec = st.pyheap.get((oid, '$co')) if oid is not None else None
+    if rec is None:
+      raise Unsupported('send / next on a generator that was not created from a coroutine contract')
+    con, env, started = rec
+    spec = con.coroutine_
+    if (sent is None) == started:
+      raise Unsupported('coroutine protocol: next() exactly once, then send()')
+    caller_env = st.env
+    pre = st.fork()
+    pre.env = self.co_fields_env(pre, obj, con, env) if started else dict(env)
+    for name, kind in spec['state'].items():
+      self.write_field(st, obj, name, self.make_result(st, kind))
+    if started:
+      if con.modifies_ is None:
+        self.havoc_heap(st, ['*'])
+      elif con.modifies_:
+        st.env = dict(pre.env)
+        self.havoc_heap(st, [m for m in con.modifies_ if not self.mentions_unset_ghost(st, m)], None)
+      self.havoc_callee_ghosts(st, con)
+    st.env = self.co_fields_env(st, obj, con, env)
+    saved_old = self.old_state
+    self.old_state = pre
+    try:
+      clauses = spec['step'] if started else spec['init']
+      for n, ex_ in clauses:
+        if not self.mentions_unset_ghost(st, ex_):
+          st.assume(self.eval_spec_merged(st, ex_, {'sent': sent} if started else None))
+      for n, ex_ in spec['inv']:
+        if not self.mentions_unset_ghost(st, ex_):
+          st.assume(self.eval_spec_merged(st, ex_))
+    finally:
+      self.old_state = saved_old
+    st.env = caller_env
+    st.pyheap[(oid, '$co')] = (con, env, True)
+    return [(st, NONE)]
+
+  def havoc_callee_ghosts(self, st, con):
+    """Ghost variables the callee's contract declares (and does not mark const) may be changed by the call: their new
+    values are whatever the callee's postconditions say."""
+    from pyvc.values import VSeq
+    for g in con.ghost_:
+      if g in con.ghost_const or g not in st.ghost:
+        continue
+      v = st.ghost[g]
+      if isinstance(v, VInt):
+        st.ghost[g] = VInt(fresh('cg_' + g, z3.IntSort()))
+      elif isinstance(v, VSeq):
+        st.ghost[g] = VSeq(fresh('cg_' + g, v.t.sort()))
+      elif isinstance(v, VStr):
+        st.ghost[g] = VStr(fresh('cg_' + g, z3.StringSort()))
+      elif isinstance(v, VBool):
+        st.ghost[g] = VBool(fresh('cg_' + g, z3.BoolSort()))
+      elif isinstance(v, VVal):
+        st.ghost[g] = VVal(fresh('cg_' + g, Val))
 
   def mentions_unset_ghost(self, st, expr):
     """Call sites only: a contract clause over a ghost variable that the unit under verification did not declare
